@@ -127,9 +127,10 @@ def engine_model(ctx, name, blocks, sample=None, labels=E_LABELS, timeout=2400):
 
 # block universes: (slot, hash, parent | None, slices, arrival paths)
 #  chain 1A <- 2A, fork 2B on the same parent with the same transactions in another order,
-#  3C on a parent that is never executed (fallback to its block hash) with an empty first slice
+#  3C on a parent that is never executed (fallback to its block hash) with an empty first slice;
+#  t2 extends t1 by a zero byte, t3 is the empty transaction
 U_QUICK = [
-    (1, "A", None, [["t1"], ["t2"]], "PK"),
+    (1, "A", None, [["t1"], ["t3"]], "PK"),
     (2, "A", (1, "A"), [["t1", "t2"]], "P"),
     (2, "B", (1, "A"), [["t2", "t1"]], "K"),
     (3, "C", (2, "X"), [[], ["t1"]], "K"),
@@ -167,7 +168,7 @@ def run(ctx):
     k4 = ["000", "001", "010", "100"]
     k5 = ["000", "001", "010", "011", "100"]
     if ctx.tier == "quick":
-        state_model(ctx, "state_2forks_4keys", k4, 2, 2, sample=45000)
+        state_model(ctx, "state_2forks_4keys", k4, 2, 2, sample=36000)
         state_sim(ctx, "state_sim_3forks_5keys", k5, 2, 3, num=120, depth=30)
         engine_model(ctx, "engine_quick", U_QUICK, sample=60000)
     else:
